@@ -132,7 +132,11 @@ class C02(Prop):
                     ("create_schedule", {"start": f"{(i % 1440) // 60:02d}:{(i % 1440) % 60:02d}",
                                          "end": f"{((7 * i + 11) % 1440) // 60:02d}:{((7 * i + 11) % 1440) % 60:02d}",
                                          "days": ALL_DAY_SETS[i % 128], "days_form": ("set", "list", "tuple")[i % 3]}),
-                    ("create_schedule", None), ("get_state", {})]
+                    ("create_schedule", None),
+                    # twice with the library's own default for days: a default that was written into would show on the second call
+                    ("create_schedule", {"start": "06:00", "end": "07:30", "days": [], "days_form": "default"}),
+                    ("create_schedule", {"start": f"{(i % 1440) // 60:02d}:{(i % 1440) % 60:02d}", "end": "23:59", "days": [], "days_form": "default"}),
+                    ("get_state", {})]
         else:
             plan = [("stop", {}), ("set_position", {"position": i % 101}), ("get_shutter_state", {}),
                     ("set_position", None), ("stop", {})]
@@ -150,6 +154,9 @@ class C02(Prop):
                     if len(issued) != 1:
                         acc.violation(f"login-count:{op}", f"{op} triggered {len(issued)} logins", {"op": op})
                         continue
+                    while ops.MUTATED:
+                        what, was, now_is = ops.MUTATED.pop()
+                        acc.violation("caller-argument-mutated", f"{op}: the library changed the caller's {what} from {was} to {now_is}", {"op": op, "args": args})
                     s = compare(acc, rec, t, dev_id, key, issued[0], int(round(now)), world)
                     if s is not None and args:
                         acc.sig(env.sig(s, self._argclass(op, args)))
